@@ -30,6 +30,9 @@ const (
 func NewParams(u *Universe) *chaincfg.Params {
 	p := chaincfg.RegressionNetParams
 	p.CoinbaseMaturity = uint16(u.Maturity)
+	if u.SubsidyInterval > 0 {
+		p.SubsidyReductionInterval = int32(u.SubsidyInterval)
+	}
 	if u.Retarget {
 		// real retargeting every 20 blocks; ReduceMinDifficulty (the testnet
 		// twenty-minute rule) is already set for this network
@@ -78,10 +81,13 @@ func legacyScript2(tag []byte, pad, sigops, checksigs int) []byte {
 
 // witnessScript for a P2WSH coin: <tag> OP_DROP [OP_0 OP_IF OP_CHECKSIG*n OP_ENDIF] OP_1
 // (each OP_CHECKSIG costs the spender one unit of sigop cost).
-func witnessScript(tag []byte, checksigs int) []byte {
+func witnessScript(tag []byte, checksigs, pad int) []byte {
 	s := []byte{byte(len(tag))}
 	s = append(s, tag...)
 	s = append(s, txscript.OP_DROP)
+	for i := 0; i < pad; i++ {
+		s = append(s, txscript.OP_NOP)
+	}
 	if checksigs > 0 {
 		s = append(s, txscript.OP_0, txscript.OP_IF)
 		for i := 0; i < checksigs; i++ {
@@ -94,10 +100,22 @@ func witnessScript(tag []byte, checksigs int) []byte {
 
 // redeemScript of the standard (P2SH) outputs: <tag> OP_DROP OP_DROP OP_1, spent by
 // the signature script <padding push> <redeem script>.
-func redeemScript(tag []byte) []byte {
+func redeemScript(tag []byte) []byte { return redeemScriptSigOps(tag, 0) }
+
+// redeemScriptSigOps additionally holds n never-executed OP_CHECKSIG, each of which costs
+// the SPENDER WitnessScaleFactor units of sigop cost (precise P2SH count).
+func redeemScriptSigOps(tag []byte, checksigs int) []byte {
 	s := []byte{byte(len(tag))}
 	s = append(s, tag...)
-	return append(s, txscript.OP_DROP, txscript.OP_DROP, txscript.OP_1)
+	s = append(s, txscript.OP_DROP, txscript.OP_DROP)
+	if checksigs > 0 {
+		s = append(s, txscript.OP_0, txscript.OP_IF)
+		for i := 0; i < checksigs; i++ {
+			s = append(s, txscript.OP_CHECKSIG)
+		}
+		s = append(s, txscript.OP_ENDIF)
+	}
+	return append(s, txscript.OP_1)
 }
 
 func p2sh(rs []byte) []byte {
@@ -134,27 +152,28 @@ func p2wsh(ws []byte) []byte {
 // Concrete holds the real objects of one universe.  They depend on the wall
 // clock (block timestamps) and are built once per process.
 type Concrete struct {
-	U        *Universe
-	Params   *chaincfg.Params // template; each Env copies it again
-	T0       time.Time
-	Base     []*btcutil.Block // blocks 1..H0 on top of genesis
-	H0       int32
-	FundTx   *btcutil.Tx
-	SlotCB   []*wire.MsgTx // coinbase of slot b at index b-1
-	Txs      []*btcutil.Tx // tx t at index t-1
-	ByHash   map[chainhash.Hash]int
-	Ops      []Outpoint // the outpoint universe
-	OpReal   map[Outpoint]wire.OutPoint
-	OpAbs    map[wire.OutPoint]Outpoint
-	OpValue  map[Outpoint]int64
-	coin     map[Outpoint]coinInfo
-	parent   map[int]*btcutil.Tx // source id (0 fund, <0 coinbases) -> transaction, for utxo views
-	VSize    []int
-	Size     []int
-	Weight   []int
-	SigCost  []int
-	slotH    []int32 // absolute height of slot b
-	BaseBits uint32  // difficulty bits of the base chain tip
+	U           *Universe
+	Params      *chaincfg.Params // template; each Env copies it again
+	T0          time.Time
+	Base        []*btcutil.Block // blocks 1..H0 on top of genesis
+	H0          int32
+	FundTx      *btcutil.Tx
+	SlotCB      []*wire.MsgTx // coinbase of slot b at index b-1
+	Txs         []*btcutil.Tx // tx t at index t-1
+	ByHash      map[chainhash.Hash]int
+	Ops         []Outpoint // the outpoint universe
+	OpReal      map[Outpoint]wire.OutPoint
+	OpAbs       map[wire.OutPoint]Outpoint
+	OpValue     map[Outpoint]int64
+	coin        map[Outpoint]coinInfo
+	parent      map[int]*btcutil.Tx // source id (0 fund, <0 coinbases) -> transaction, for utxo views
+	VSize       []int
+	Size        []int
+	Weight      []int
+	SigCost     []int   // counted from the description (specification constant TxSigCost)
+	SigCostReal []int   // blockchain.GetSigOpCost
+	slotH       []int32 // absolute height of slot b
+	BaseBits    uint32  // difficulty bits of the base chain tip
 }
 
 func (c *Concrete) SlotHeight(b int) int32 { return c.slotH[b-1] }
@@ -234,7 +253,6 @@ func BuildConcrete(u *Universe) (*Concrete, error) {
 		OpReal: map[Outpoint]wire.OutPoint{}, OpAbs: map[wire.OutPoint]Outpoint{}, OpValue: map[Outpoint]int64{},
 		coin: map[Outpoint]coinInfo{}, parent: map[int]*btcutil.Tx{}}
 	c.T0 = time.Unix(time.Now().Add(-2*time.Hour).Unix(), 0)
-	subsidy := blockchain.CalcBlockSubsidy(1, c.Params)
 
 	// base chain: block 1 (its coinbase funds F), ..., block 1+M carries F.  A
 	// retargeting universe continues to height 2*retargetBlocks+1, one second per
@@ -254,6 +272,7 @@ func BuildConcrete(u *Universe) (*Concrete, error) {
 	var cb1 *wire.MsgTx
 	for h := int32(1); h <= c.H0; h++ {
 		var cbt *wire.MsgTx
+		subsidy := blockchain.CalcBlockSubsidy(h, c.Params)
 		if h == c.H0 {
 			cbt = coinbaseTxTo(h, 1000+int64(h), subsidy, c.outScript(baseCB(), []byte{0xcb, 0xb0}, 4, TxSpec{}))
 		} else {
@@ -271,7 +290,7 @@ func BuildConcrete(u *Universe) (*Concrete, error) {
 				f.AddTxOut(&wire.TxOut{Value: fundValue, PkScript: c.outScript(fund(i), []byte{0xf0, byte(i)}, 0, TxSpec{})})
 			}
 			// change back so that the fee is small
-			f.AddTxOut(&wire.TxOut{Value: subsidy - int64(u.NFund)*fundValue - 10000, PkScript: legacyScript([]byte{0xfc}, 40, 0)})
+			f.AddTxOut(&wire.TxOut{Value: cb1.TxOut[0].Value - int64(u.NFund)*fundValue - 10000, PkScript: legacyScript([]byte{0xfc}, 40, 0)})
 			c.FundTx = btcutil.NewTx(f)
 			c.parent[0] = c.FundTx
 			body = append(body, c.FundTx)
@@ -344,7 +363,19 @@ func BuildConcrete(u *Universe) (*Concrete, error) {
 		if err != nil {
 			return nil, fmt.Errorf("universe %s: tx %d: %w", u.Name, t, err)
 		}
-		c.SigCost = append(c.SigCost, cost)
+		c.SigCostReal = append(c.SigCostReal, cost)
+		// ... and counted from the universe's description alone, which is what the
+		// specification gets (TxSigCost): 20 per OP_CHECKMULTISIG and 1 per OP_CHECKSIG of
+		// output 0, times the witness scale factor; the OP_CHECKSIGs of every P2SH redeem
+		// script spent, times the scale factor; those of every witness script spent, once.
+		indep := (20*u.Txs[i].SigOps + u.Txs[i].SigOpsCS) * blockchain.WitnessScaleFactor
+		if u.Standard || u.Txs[i].Cls == "small" {
+			indep = 0
+		}
+		for _, in := range u.Txs[i].Ins {
+			indep += u.P2SHSigOps[in]*blockchain.WitnessScaleFactor + u.WitSigOps[in]
+		}
+		c.SigCost = append(c.SigCost, indep)
 		if u.Txs[i].Cls != "insane" && u.Txs[i].VSize != AutoSize && c.VSize[i] != u.Txs[i].VSize {
 			return nil, fmt.Errorf("universe %s: tx %d has vsize %d, wanted %d", u.Name, t, c.VSize[i], u.Txs[i].VSize)
 		}
@@ -367,11 +398,15 @@ func (c *Concrete) outScript(op Outpoint, tag []byte, pad int, creator TxSpec) [
 		rs := redeemScript(tag)
 		c.coin[op] = coinInfo{kP2SH, rs}
 		return p2sh(rs)
+	case u.P2SHSigOps[op] > 0:
+		rs := redeemScriptSigOps(tag, u.P2SHSigOps[op])
+		c.coin[op] = coinInfo{kP2SH, rs}
+		return p2sh(rs)
 	case creator.Cls == "small":
 		c.coin[op] = coinInfo{kind: kBare}
 		return []byte{txscript.OP_1}
 	case u.WitCoins[op]:
-		ws := witnessScript(tag, u.WitSigOps[op])
+		ws := witnessScript(tag, u.WitSigOps[op], u.WitPad[op])
 		c.coin[op] = coinInfo{kWit, ws}
 		return p2wsh(ws)
 	default:
@@ -429,7 +464,7 @@ func (c *Concrete) buildTx(t int) (*btcutil.Tx, error) {
 				}
 			case kP2SH:
 				padPush := []byte{0x2a, 0x2a}
-				if first {
+				if first && u.Standard {
 					for i := 0; i < pad; i++ {
 						padPush = append(padPush, 0x2a)
 					}
